@@ -334,9 +334,16 @@ func checkMain(args []string) int {
 		}
 		rf.Confirmed = confirmed
 		_, wasLocked := locked[o.Name]
-		if !wasLocked && o.Safety {
-			// safety obligations are locked as a class per function
-			_, wasLocked = locked[o.Func+"/"+strings.SplitN(o.Kind, "#", 2)[0]+"*"]
+		if !wasLocked && (o.Safety || o.Kind == "overflow" || o.Kind == "fconv" || o.Kind == "shift") {
+			// per-instruction obligations (bounds, nil, division, explicit
+			// panic, overflow sweep) shift with every edit: they are locked
+			// as a class for every function that has locked obligations
+			for name := range locked {
+				if strings.HasPrefix(name, o.Func+"/") {
+					wasLocked = true
+					break
+				}
+			}
 		}
 		os.MkdirAll(replayDir, 0o755)
 		rpath := filepath.Join(replayDir, sanitize(o.Name)+".json")
